@@ -1,0 +1,35 @@
+//! Verification-only pause points (cargo feature `verif-hooks`, off by default).
+//!
+//! `BRUSH_VERIF_PAUSE="name=ms,name=ms,..."` delays execution at the named points so that an
+//! external checker can enumerate stage-start and completion orders instead of leaving them to
+//! the scheduler. Unknown names are ignored; with the variable unset nothing is delayed.
+//!
+//! Points (pipelines of two or more stages only): `spawn<i>` (after pipeline stage `i` has been
+//! started), `wait` (before the pipeline's stages are awaited); `cmdsub` (before a command substitution's output is drained),
+//! `jobstart` (at the start of a background job's task), `poll` (before the job table is polled).
+
+fn delay(name: &str) -> Option<std::time::Duration> {
+    let spec = std::env::var("BRUSH_VERIF_PAUSE").ok()?;
+    spec.split(',').find_map(|item| {
+        let (k, v) = item.split_once('=')?;
+        if k.trim() == name {
+            v.trim().parse::<u64>().ok().map(std::time::Duration::from_millis)
+        } else {
+            None
+        }
+    })
+}
+
+/// Pauses the calling task (not the executor) at the named point.
+pub(crate) async fn pause(name: &str) {
+    if let Some(d) = delay(name) {
+        let _ = tokio::task::spawn_blocking(move || std::thread::sleep(d)).await;
+    }
+}
+
+/// Pauses the calling thread at the named point (for synchronous code).
+pub(crate) fn pause_blocking(name: &str) {
+    if let Some(d) = delay(name) {
+        std::thread::sleep(d);
+    }
+}
